@@ -5,6 +5,7 @@ mod action;
 mod api;
 mod candle;
 mod convert;
+mod indicators;
 mod laws;
 mod methods;
 mod num;
@@ -41,6 +42,7 @@ fn dispatch(cmd: &str, rest: &[String]) {
 		"laws-record" => laws::record(rest),
 		"laws-impulse" => laws::impulse(rest),
 		"prefix-record" => prefix::record(rest),
+		"ind-record" => indicators::record(rest),
 		"num-record" => num::record(rest),
 		"tok-replay" => tok::replay(rest),
 		"tok-record" => tok::record(rest),
